@@ -292,7 +292,8 @@ impl SafeFileCreator {
         proof { broadcast use axiom_final_names_not_dotted; }
         let ghost fs0 = vx_fs.files@; let ghost w0 = self.writer;
 //@ before `drop(writer);`
-        proof { assert(vx_fs.files@ =~= fs0.insert(self.temp_path, w0.unwrap().written@)); }
+        // property-carrying: after the flush the temp file holds exactly the stream written (what the rename is about to publish)
+        proof { /*@C19*/ assert(vx_fs.files@ =~= fs0.insert(self.temp_path, w0.unwrap().written@)); }
 //@ end
 
 //@ extract file_utils/src/safe_file_creator.rs in `impl Write for SafeFileCreator` region write
